@@ -771,6 +771,29 @@ class Executor:
         if fr.normal is not None:
             self.jump(st, caller, fr.normal)
 
+    def throw(self, st, what, ins=None, detail=''):
+        """an exception of type `what` is thrown by the call instruction `ins` of the top frame (or, ins=None, by a
+        `resume` of the top frame): unwind to the nearest enclosing invoke, running the landing pads of the real code
+        (cleanups, catch clauses); if no frame catches it the path ends with status 'throw:<what>'."""
+        if ins is not None:
+            st.events.append(('throw', what, detail))
+            st.extra['exc'] = what
+            u = ins.a[4] if ins.op == 'call' and len(ins.a) > 4 else None
+            if u is not None:
+                self.jump(st, st.frames[-1], u)
+                return None
+        while st.frames:
+            fr = st.frames.pop()
+            for rid in fr.allocas:
+                st.wreg(rid).alive = False
+            if not st.frames:
+                break
+            if fr.unwind is not None:
+                self.jump(st, st.frames[-1], fr.unwind)
+                return None
+        st.status = 'throw:' + str(st.extra.get('exc', what))
+        return None
+
     def fork_branch(self, st, c, on_true, on_false):
         """c: i1 term. on_true/on_false: callables(state) performing the jump"""
         if tm.is_ic(c):
@@ -980,7 +1003,7 @@ class Executor:
             st.status = 'unreachable'
             return None
         if op == 'resume':
-            st.status = 'resume'
+            self.throw(st, st.extra.get('exc', 'resume'))
             return None
         if op == 'landingpad':
             env[ins.res] = ('agg', [NULL, ic('i32', 0)])
